@@ -40,7 +40,7 @@ SHORT_DE = [('"a', 'ä'), ('"o', 'ö'), ('"U', 'Ü'), ('"s', 'ß'), ('"`', '„'
 ALL_KINDS = ['word', 'word', 'atom', 'unk', 'unkarg', 'unkarg2', 'label', 'index', 'ref', 'cite', 'citeopt',
              'section', 'footnote', 'caption', 'textcolor', 'href', 'comment', 'skip', 'ltskip', 'ltadd', 'ltalter',
              'itemize', 'enumerate', 'itemlab', 'verb', 'verbatim', 'inline', 'display', 'tabular', 'proof',
-             'theorem', 'tikz', 'usermac', 'usermac2', 'usermacopt', 'defmac', 'latexname', 'texorpdf', 'framebox',
+             'theorem', 'tikz', 'usermac', 'usermac2', 'usermacopt', 'usermacoptonly', 'defmac', 'latexname', 'texorpdf', 'framebox',
              'unkenv', 'figure', 'minipage', 'vanish', 'hspace', 'phantom', 'quad', 'newline', 'group',
              'textbackslash', 'gls', 'removed_ext', 'twice_ext', 'mathtext', 'footcite', 'accent', 'lstlisting',
              'includegraphics', 'emph', 'par']
@@ -68,7 +68,7 @@ def pkgs_of(pack):
 
 HEAD_FORBIDDEN = {'footnote', 'caption', 'inline', 'display', 'enumerate', 'section', 'proof', 'itemize', 'tabular',
                   'tikz', 'theorem', 'itemlab', 'verbatim', 'figure', 'minipage', 'defmac', 'usermac', 'usermac2',
-                  'usermacopt', 'gls', 'footcite', 'removed_ext', 'unkenv', 'twice_ext', 'mathtext', 'lstlisting',
+                  'usermacopt', 'usermacoptonly', 'gls', 'footcite', 'removed_ext', 'unkenv', 'twice_ext', 'mathtext', 'lstlisting',
                   'par', 'verb', 'hspace', 'phantom'}
 # inside an argument that is duplicated by a macro (twice_ext): nothing with side effects or counters
 TWICE_FORBIDDEN = HEAD_FORBIDDEN | {'ref', 'cite', 'citeopt'} - {'verb', 'hspace', 'phantom'}
@@ -734,6 +734,24 @@ class Gen:
             self.cur[m2:m2] = [(c, st + 1, en, 'g:macro-default') for c in 'ydflt']
         self.cur[mark:mark] = [(c, st + 1, en, 'g:macro-body') for c in 'ybodyd']
 
+    def k_usermacoptonly(self):
+        """\\ymacd[O] -> ybodye O ; only an optional argument, default 'ydfltb'"""
+        st = self.pos()
+        self.w('\\ymacd')
+        mark = len(self.cur)
+        if self.rnd.random() < .4:
+            self.w('[')
+            self.path.append('useropt')
+            self.word()
+            self.path.pop()
+            self.w(']')
+            en = self.pos()
+        else:
+            en = self.pos()
+            self.cur += [(c, st + 1, en, 'g:macro-default-trailing') for c in 'ydfltb']
+            self.w(self.rnd.choice(['{}', ' ', '\n']))
+        self.cur[mark:mark] = [(c, st + 1, en, 'g:macro-body') for c in 'ybodye']
+
     def k_defmac(self):
         """definition in mid-document, then used once"""
         self.mid += 1
@@ -794,7 +812,8 @@ class Gen:
 
 PREAMBLE = ('\\newcommand{\\ymaca}[1]{ybodya #1 ybodyb}\n'
             '\\newcommand{\\ymacb}[2]{#2 ybodyc #1}\n'
-            '\\newcommand{\\ymacc}[2][ydflt]{ybodyd #1 #2}\n')
+            '\\newcommand{\\ymacc}[2][ydflt]{ybodyd #1 #2}\n'
+            '\\newcommand{\\ymacd}[1][ydfltb]{ybodye #1}\n')
 GLSDEFS = ('\\gls@defglossaryentry{ylab}%\n{%\nname={yglsname},%\ntext={yglstext},%\nplural={yglsplural},%\n'
            'description={yglsdescr},%\nfirst={yglsfirst}%\n}%\n')
 
